@@ -380,27 +380,38 @@ func analyseDrainLoops(p *GoProg, body ast.Node) []*drainLoop {
 		}
 		d.stmt = st
 		// exits: break / return / goto inside the body
-		var visit func(n ast.Node, guards []ast.Expr, inDefault bool)
-		visit = func(n ast.Node, guards []ast.Expr, inDefault bool) {
+		// seen: the terminator test has already been made on the way to this statement (in this iteration)
+		var visit func(n ast.Node, guards []ast.Expr, inDefault, seen bool)
+		visit = func(n ast.Node, guards []ast.Expr, inDefault, seen bool) {
 			switch s := n.(type) {
 			case *ast.IfStmt:
-				visit(s.Body, append(append([]ast.Expr{}, guards...), s.Cond), inDefault)
+				visit(s.Body, append(append([]ast.Expr{}, guards...), s.Cond), inDefault, seen)
 				if s.Else != nil {
-					visit(s.Else, guards, inDefault)
+					visit(s.Else, guards, inDefault, seen)
 				}
 			case *ast.BlockStmt:
 				for _, x := range s.List {
-					visit(x, guards, inDefault)
+					visit(x, guards, inDefault, seen)
+					if ifs, ok := x.(*ast.IfStmt); ok && isTerminatorGuard(p, ifs.Cond) {
+						seen = true
+					}
 				}
 			case *ast.SelectStmt:
 				for _, cl := range s.Body.List {
 					cc := cl.(*ast.CommClause)
+					sn := seen
 					for _, x := range cc.Body {
-						visit(x, guards, inDefault || cc.Comm == nil)
+						visit(x, guards, inDefault || cc.Comm == nil, sn)
+						if ifs, ok := x.(*ast.IfStmt); ok && isTerminatorGuard(p, ifs.Cond) {
+							sn = true
+						}
 					}
 				}
 			case *ast.BranchStmt, *ast.ReturnStmt:
 				if bs, ok := s.(*ast.BranchStmt); ok && bs.Tok == token.CONTINUE {
+					if !seen && !inDefault {
+						d.otherExits = append(d.otherExits, "`continue` before the terminator test (a received terminator would be ignored)")
+					}
 					return
 				}
 				term := false
@@ -420,16 +431,20 @@ func analyseDrainLoops(p *GoProg, body ast.Node) []*drainLoop {
 			case *ast.ForStmt, *ast.RangeStmt, *ast.FuncLit:
 				// nested loops: not expected
 			case *ast.LabeledStmt:
-				visit(s.Stmt, guards, inDefault)
+				visit(s.Stmt, guards, inDefault, seen)
 			case *ast.SwitchStmt:
 				for _, cl := range s.Body.List {
+					sn := seen
 					for _, x := range cl.(*ast.CaseClause).Body {
-						visit(x, guards, inDefault)
+						visit(x, guards, inDefault, sn)
+						if ifs, ok := x.(*ast.IfStmt); ok && isTerminatorGuard(p, ifs.Cond) {
+							sn = true
+						}
 					}
 				}
 			}
 		}
-		visit(loopBody, nil, false)
+		visit(loopBody, nil, false, false)
 		out = append(out, d)
 		return false
 	})
